@@ -1,6 +1,7 @@
 package main
 
 import (
+	"sync"
 	"errors"
 	"fmt"
 	"math/rand"
@@ -253,6 +254,15 @@ func checkWeightedModel1(run *core.Run, m *openfgav1.AuthorizationModel, r *rand
 			}
 			run.Count("second_AssignWeights_calls", 1)
 		}
+	}
+	{
+		// a builder value that has built OTHER models before (whatever the previous cases of this goroutine's pool
+		// slot were): what it answers for this model must be what a fresh builder answers
+		wb := usedBuilders.Get().(*graph.WeightedAuthorizationModelGraphBuilder)
+		g, err := wb.Build(m)
+		usedBuilders.Put(wb)
+		observe(g, err, "Build with a builder value that built other models before")
+		run.Count("builds_with_a_used_builder", 1)
 	}
 	realOutcomes := map[string]int{}
 	for k, n := range outcomes {
@@ -814,6 +824,8 @@ func computedChain(N int) *openfgav1.AuthorizationModel {
 	td.Metadata.Relations[last] = &openfgav1.RelationMetadata{DirectlyRelatedUserTypes: []*openfgav1.RelationReference{gen.RefType("user"), gen.RefWild("user")}}
 	return &openfgav1.AuthorizationModel{SchemaVersion: "1.1", TypeDefinitions: []*openfgav1.TypeDefinition{{Type: "user"}, td}}
 }
+
+var usedBuilders = sync.Pool{New: func() any { return graph.NewWeightedAuthorizationModelGraphBuilder() }}
 
 func replayWeighted(run *core.Run, c *core.Case) {
 	m, err := modelFromJSON(c.Model)
